@@ -20,6 +20,9 @@ func VerifC16State(s *Session) uint32 { return uint32(s.state) }
 // VerifC16ListenerState returns the raw state word of a Listener.
 func VerifC16ListenerState(l *Listener) uint32 { return uint32(l.state) }
 
+// VerifC16ListenerNil reports whether the Listener's socket field is nil (read at quiescence).
+func VerifC16ListenerNil(l *Listener) bool { return l.listener == nil }
+
 // c16Closed reads the `closed` word of the run-time channel header (runtime.hchan: qcount uint,
 // dataqsiz uint, buf unsafe.Pointer, elemsize uint16, [pad], closed uint32 => offset 28 on
 // 64-bit).  Reading it takes nothing out of the buffer and puts nothing in, unlike a probe by
